@@ -316,6 +316,33 @@ def noEchoAtPasswordPrompt : EDev → Bool
   | (_, t, _) :: (pre', t', e') :: r =>
     (!e' || !isPwPrompt t) && noEchoAtPasswordPrompt ((pre', t', e') :: r)
 
+/-! ## the change phase as steps
+
+After `LoadDevice` the back end sends every command of the change script with `console.Conn.Send`
+and waits for the prompt; what the device writes (its echo of the command and its answer) goes into
+`.change`.  No step of this phase mentions the password. -/
+
+/-- Sequencing: run `q` where `p` hands over to the rest of the session. -/
+def Prog.andThen : Prog → Prog → Prog
+  | .tail, q => q
+  | .send c k, q => .send c (k.andThen q)
+  | .expect w re pw ok k, q => .expect w re pw ok (fun out => (k out).andThen q)
+  | .setLog l k, q => .setLog l (k.andThen q)
+  | .abort m, _ => .abort m
+
+/-- Every command of the script: send the literal line, take what the device writes. -/
+def scriptProg : List Str → Prog
+  | [] => .tail
+  | c :: cs => issue (.lit c) [] fun _ => scriptProg cs
+
+/-- `applyCommands`: the log is switched to `.change` if there is something to apply. -/
+def changeProg (applies : Bool) (script : List Str) : Prog :=
+  if applies then .setLog (some .change) (scriptProg script) else scriptProg script
+
+/-- Login, reading the configuration, then the change script. -/
+def sessionProg (dt : DevType) (host banner : Str) (applies : Bool) (script : List Str) : Prog :=
+  (loadProg dt host banner).andThen (changeProg applies script)
+
 /-! ## the whole session -/
 
 /-- What follows `LoadDevice`: every command sent and the segment that followed it (if any). -/
